@@ -631,12 +631,13 @@ def claims_suite(world, pool, tier, rng):
     thorough = tier == "thorough"
     oct_item = world.add_key(20, pool.keys["oct32"], private=True, alg_attr="HS256")
 
-    def emit(ck, claims, policy, now, signed, note):
+    def emit(ck, claims, policy, now, signed, note, hdr_extra=None):
+        # hdr_extra: members of the HEADER (what is judged is the payload: a claim that only the header carries is absent)
         if signed:
-            msg = seg({"alg": "HS256"}) + b"." + seg(claims)
+            msg = seg(dict({"alg": "HS256"}, **(hdr_extra or {}))) + b"." + seg(claims)
             tok = msg + b"." + pool.sign("oct32", "HS256", msg)
         else:
-            tok = mk_token({"alg": "none"}, claims)
+            tok = mk_token(dict({"alg": "none"}, **(hdr_extra or {})), claims)
         ok = spec_claims_pass(policy, claims, now)
         metas.append((len(world.ops), {"kind": "verify", "claims": json.dumps(claims)[:80], "policy": str(policy)[:120], "now": now,
                                        "signed": signed, "may_accept": ok, "must_accept": ok is True, "note": note}))
@@ -672,6 +673,25 @@ def claims_suite(world, pool, tier, rng):
         for v in (1.5, 1e300, "2000", "", True, False, None, [], [2000], {}, {"a": 1}):
             emit(0, {which: v}, default, 1000, False, "type")
             emit(1, {which: v}, default, 1000, True, "type")
+    # --- the claims are the payload's: the same members in the header neither satisfy nor fail a check
+    for which in ("iss", "sub", "aud"):
+        for ck, signed in ((0, False), (1, True)):
+            world.op("ck %d new" % ck, tag="cfg")
+            if signed:
+                world.op("ck %d setkey 0 %d %d" % ((ck,) + oct_item), tag="cfg")
+            world.op("ck %d claimset %s %s" % (ck, which, hx(b"good")), tag="cfg")
+            pol = dict(default)
+            pol[which] = b"good"
+            emit(ck, {}, pol, 1000, signed, "only the header carries the claim", hdr_extra={which: "good"})
+            emit(ck, {which: "evil"}, pol, 1000, signed, "header and payload disagree", hdr_extra={which: "good"})
+            emit(ck, {which: "good"}, pol, 1000, signed, "header and payload disagree, payload right", hdr_extra={which: "evil"})
+    for which, hv, pv in (("exp", 5000, 10), ("nbf", 10, 5000), ("exp", 10, 5000)):
+        world.op("ck 0 new", tag="cfg")
+        emit(0, {which: pv}, default, 1000, False, "time claim also in the header", hdr_extra={which: hv})
+        emit(0, {}, default, 1000, False, "time claim only in the header", hdr_extra={which: hv})
+    world.op("ck 0 new", tag="cfg")
+    world.op("ck 1 new", tag="cfg")
+    world.op("ck 1 setkey 0 %d %d" % oct_item, tag="cfg")
     # --- string claims
     pairs = [("abc", "abc"), ("abc", "ab"), ("ab", "abc"), ("abc", "ABC"), ("", ""), ("", "a"), ("a", ""),
              ("é", "é"), ("é", "e"), ("a\u0001b", "a\u0001b"), ("x" * 300, "x" * 300), ("x" * 300, "x" * 299)]
@@ -913,6 +933,36 @@ def strength(world, pool, tier, rng, extra_keys):
             tok = msg + b"." + (sig if sig is not None else b"AAAA")
             metas.append((len(world.ops), {"kind": "verify", "key": name, "bits": key.bits, "alg": alg, "may_accept": ok, "must_accept": ok}))
             world.op("ck 0 verify " + hx(tok), tag="verify")
+    # an EC key is as big as its curve, however wide its coordinates are written (leading zero octets out to the width of
+    # a bigger curve): P-256 stays a 256-bit key
+    if "p256" in pool.keys:
+        kp = pool.keys["p256"]
+        for width in (33, 48, 66):
+            ov = {"x": K.b64u(K.int_bytes(kp.x, width)), "y": K.b64u(K.int_bytes(kp.y, width))}
+            itw = world.add_key(fresh_set(), kp, private=False, alg_attr=None, jwk_override=ov)
+            for alg in ("ES256", "ES384", "ES512"):
+                world.op("ck 0 new", tag="cfg")
+                world.op("ck 0 setkey %d %d %d" % ((K.ALG_ORD[alg],) + itw), tag="cfg")
+                msg = seg({"alg": alg}) + b"." + seg({"k": "p256 written %d octets wide" % width})
+                sgn = pool.sign("p256", "ES256", msg)
+                # under ES384 / ES512 also a P-256 signature stretched to the width the algorithm expects
+                raw = K.b64u_dec(sgn)
+                w2 = {"ES256": 32, "ES384": 48, "ES512": 66}[alg]
+                stretched = K.b64u(bytes(w2 - 32) + raw[:32] + bytes(w2 - 32) + raw[32:]).encode()
+                cands = [("its ES256 signature", sgn), ("that signature zero-extended to the algorithm's width", stretched)]
+                if alg != "ES256":
+                    # ... and what the holder of this P-256 key can compute for the stronger name: ECDSA over the algorithm's own
+                    # digest, framed at the algorithm's width
+                    if "p256" not in pool.okid:
+                        pool.okid["p256"] = pool.oracle.add_key(kp.pem(True))
+                    fs = pool.oracle.sign_foreign(pool.okid["p256"], alg, msg, w2)
+                    if fs is not None:
+                        cands.append(("an ECDSA signature by this key over the algorithm's digest, at the algorithm's width", K.b64u(fs).encode()))
+                for what, sg in cands:
+                    ok = alg == "ES256" and sg == sgn
+                    md = {"kind": "verify", "key": "p256 with coordinates written %d octets wide, %s" % (width, what), "bits": 256, "alg": alg, "may_accept": ok, "must_accept": False}
+                    metas.append((len(world.ops), md))
+                    world.op("ck 0 verify " + hx(msg + b"." + sg), tag="verify")
     # one checker (and one builder) whose callback hands out the same key for a stronger algorithm next time: a key that was
     # big enough for the last token is measured again, against the algorithm of THIS token
     k32 = K.Key("oct", k=bytes(rng.randrange(256) for _ in range(32)), bits=256)
@@ -1240,7 +1290,8 @@ def falsify_programs(m, out, eo=None):
 # =====================================================================================
 def callbacks_suite(world, pool, tier, rng):
     metas = []
-    it = world.add_key(50, pool.keys["oct32"], private=True, alg_attr="HS256")
+    # the configured key has a key id, and some tokens name exactly that id: the callback is asked all the same
+    it = world.add_key(50, pool.keys["oct32"], private=True, alg_attr="HS256", extra={"kid": "k"})
     world.op("clock 1000", tag="cfg")
 
     def S(kind, name, typ, val, repl):
@@ -1288,8 +1339,9 @@ def callbacks_suite(world, pool, tier, rng):
                 refs[k] = len(world.ops)
                 metas.append((len(world.ops), {"kind": "verify", "role": "no-callback", "cfg": str(cfg)[:60], "payload": str(pl)[:60]}))
                 world.op("ck 1 verify " + hx(tok), tag="verify")
-            for prog in progs:
-                for ret in (0, 3):
+            for pi_, prog in enumerate(progs):
+                # non-zero results of every kind: odd, even, negative, beyond a byte, beyond 16 bits
+                for ret in (0, (3, 1, 2, -1, 4, 256, 65536, -2, 2 ** 31 - 1, -(2 ** 31))[pi_ % 10]):
                     world.op("ck 0 new", tag="cfg")
                     if signed:
                         world.op("ck 0 setkey 0 %d %d" % it, tag="cfg")
@@ -1391,13 +1443,18 @@ def token_shapes(world, pool, tier, rng):
             msg = h + b"." + p
             good = hs_sig(1, pool.keys["oct32"].k, msg)
             shapes = [("two-seg", msg), ("three-empty", msg + b"."), ("three-sig", msg + b"." + good), ("four", msg + b"." + good + b".x"),
-                      ("four-empty", msg + b".."), ("lead-dot", b"." + msg + b"."), ("only-dots", b".."), ("three-garbage", msg + b".AAAA")]
+                      ("four-empty", msg + b".."), ("lead-dot", b"." + msg + b"."), ("only-dots", b".."), ("three-garbage", msg + b".AAAA"),
+                      # the third segment is what follows the SECOND dot, whatever follows later and however the second segment ends
+                      # (the decoder stops at a pad, so `e30=` is a payload too)
+                      ("pad-then-more", h + b".e30=.AAA."), ("pad-then-more-2", h + b".e30==.AAAA."), ("pad-then-dots", h + b".e30=.."),
+                      ("pad-in-second", h + b".e30=AAA."), ("five-trailing-dot", msg + b".AAAA.BBBB."), ("many-dots", msg + b"....")]
             for sname, tok in shapes:
                 if keyed:
                     may = hname == "HS256" and sname == "three-sig"
                 else:
-                    may = hname == "none" and sname == "three-empty"
-                metas.append((len(world.ops), {"kind": "verify", "keyed": keyed, "hdr": hname, "shape": sname, "may_accept": may, "must_accept": may}))
+                    may = hname == "none" and sname in ("three-empty", "pad-in-second")
+                must = may and sname != "pad-in-second"
+                metas.append((len(world.ops), {"kind": "verify", "keyed": keyed, "hdr": hname, "shape": sname, "may_accept": may, "must_accept": must}))
                 world.op("ck 0 verify " + hx(tok), tag="verify")
     return metas
 
@@ -1599,6 +1656,10 @@ def _cfg_alphabet(it_priv):
     def cset(name, ty, val, raw, rp=1):
         return ("cset %s %s %s %d" % (ty, hx(name), val, rp), lambda b: b.claims.set(ty, name, raw, bool(rp)))
     al = [hset(b"alg", "str", hx(b"none"), b"none"), hset(b"typ", "str", hx(b"x"), b"x"), hset(b"typ", "int", "7", "7"),
+          # a member that is there with the value null is there: defaults and non-replacing sets leave it alone
+          ("hset json - %s 1" % hx(b'{"typ":null,"kid":null}'), lambda b: b.headers.set("json", None, b'{"typ":null,"kid":null}', True)),
+          ("cset json - %s 1" % hx(b'{"x":null,"iat":null}'), lambda b: b.claims.set("json", None, b'{"x":null,"iat":null}', True)),
+          cset(b"x", "int", "5", "5", 0), hset(b"kid", "str", hx(b"k2"), b"k2", 0),
           hset(b"kid", "str", hx(b"k1"), b"k1", 0), ("hdel " + hx(b"typ"), lambda b: b.headers.delete(b"typ")),
           ("hdel -", lambda b: b.headers.delete(None)),
           cset(b"iat", "int", "5", "5"), cset(b"exp", "int", "7", "7"), cset(b"nbf", "str", hx(b"n"), b"n"),
@@ -1725,7 +1786,7 @@ def builder_suite(world, pool, tier, rng):
     jsons = [b'["a","b"]', b'{"k":null}', b"[]", b"{}", b'[1,2.5,{"z":[]}]',
              # reals that need all 17 significant digits, extremes, exponents
              b'[0.30000000000000004,1700000000.1234567,0.1,1e-7]', b'{"r":4503599627370496.5,"m":1.7976931348623157e308,"t":5e-324}',
-             b'[123456789012345.67,-0.0,1e21,0.3333333333333333]']
+             b'[123456789012345.67,-0.0,1e21,0.3333333333333333]', b"null", b"null", b"false", b'""', b"0"]
     # signature lengths of every residue mod 3 (32, 48, 64 octets): the unpadded form differs in its last characters
     it64 = world.add_key(72, K.Key("oct", k=os.urandom(64), bits=512), private=True, alg_attr=None)
     for ci in range(4000 if tier == "thorough" else 400):
@@ -1740,13 +1801,17 @@ def builder_suite(world, pool, tier, rng):
         if ci % 5 == 0:
             world.op("bl 0 iat 0", tag="cfg")
             b.iat = False
+        if ci % 6 == 1:
+            doc_ = rng.choice([b'{"typ":null}', b'{"typ":false}', b'{"typ":0,"cty":null}', b'{"typ":""}'])
+            world.op("bl 0 hset json - %s 1" % hx(doc_), tag="cfg")
+            b.headers.set("json", None, doc_, True)
         desc = []
         for _ in range(rng.randrange(1, 5)):
             hdr = rng.random() < 0.5
             name = rng.choice(hnames if hdr else cnames)
             ty = rng.choice(["str", "str", "int", "bool", "json"])
             if rng.random() < 0.35:      # a registered name with a near-miss of its usual value
-                hdr, name, ty = rng.choice([(True, b"typ", "str"), (True, b"alg", "str"), (False, b"iat", "int"), (False, b"exp", "int"),
+                hdr, name, ty = rng.choice([(True, b"typ", "str"), (True, b"typ", "json"), (True, b"alg", "str"), (False, b"iat", "int"), (False, b"exp", "int"),
                                             (False, b"nbf", "int"), (False, b"aud", "json"), (True, b"crit", "json")])
             if ty == "str":
                 raw = rng.choice(strs)
@@ -1896,6 +1961,9 @@ def roundtrip_suite(world, pool, tier, rng):
                     world.op("jwks 98 del", cmp=False, tag="cfg")
                     world.load_doc(98, poison["bad_jwks"], "strn", tag="cfg")
                 claims = {"n": i} if simple else {"d": rand_tree(rng), "n": i}
+                if i % 5 == 2:
+                    # the application's own time claims compete with the ones the library is told to write: the library's win
+                    claims.update({"exp": rng.choice([1, 4102444800, "soon", 1.5]), "iat": rng.choice([7, 1000000000, None]), "nbf": (rng.choice([9, 2 ** 40, [1]]) if i % 3 == 0 else rng.choice([9, 4999]))})      # nbf is only overridden when an offset is set
                 hdr = {} if simple else {"x": rand_tree(rng, 3)}
                 if not simple and i % 2:
                     # registered header names with values of any JSON type: the builder was told this, the token must say it
@@ -2736,11 +2804,20 @@ def providers_suite(world, pool, tier, rng):
         if rn_ not in xkeys:
             xkeys[rn_] = rk_
             alg_sel[rn_] = ra_
+    # a private OKP JWK that also carries an `x` -- one that belongs to ANOTHER key: the private value says which key this is
+    # (under both providers alike); the stray public value is no part of it
+    overrides = {}
+    for nm_ in ("ed25519", "ed448"):
+        if nm_ in pool.keys:
+            other_ = K.gen_key("okp", "ED25519" if nm_ == "ed25519" else "ED448", world.ctx.scratch)
+            xkeys[nm_ + " with the x of another key"] = pool.keys[nm_]
+            overrides[nm_ + " with the x of another key"] = {"x": K.b64u(other_.pub)}
     for load_under in PROVIDER_NAMES:
         world.op("prov name " + hx(load_under), tag="cfg")
         items = {}
         for name, key in xkeys.items():
-            items[name] = (world.add_key(s, key, private=True, alg_attr=None), world.add_key(s + 1, key, private=(key.kind == "oct"), alg_attr=None))
+            items[name] = (world.add_key(s, key, private=True, alg_attr=None, jwk_override=overrides.get(name)),
+                           world.add_key(s + 1, key, private=(key.kind == "oct"), alg_attr=None))
             s += 2
         for name, key in xkeys.items():
             priv, pub = items[name]
